@@ -7,4 +7,6 @@ MUTANTS=[
  ('revert-llgofiles-in-fingerprint', '\totherFiles = append(otherFiles, pkgLLGoFiles(p)...)\n', ''),
  ('trace-not-in-key', '\t\tllgoTrace,\n', ''),
  ('members-unsorted', 'sort.Slice(members, func(i, j int) bool {\n\t\treturn members[i].name < members[j].name\n\t})', '_ = sort.Slice', 0, 'cl/compile.go'),
+ ('revert-cflags-in-key', '\t\t"CCFLAGS",\n\t\t"CFLAGS",\n', ''),
+ ('revert-sibling-files-digested', '\t\t\tif sibling := filepath.Join(cDir, e.Name()); e.Type().IsRegular() && !seen[sibling] {', '\t\t\tif sibling := filepath.Join(cDir, e.Name()); false && !seen[sibling] {'),
 ]
